@@ -204,6 +204,21 @@ class Item:
             self.rewrites.append({"rule": "R1", "what": "deleted %d log::*! statements" % n})
         return self
 
+    def inline_local_consts(self):
+        """R9, constants: a function-local `const NAME: TYPE = EXPR;` is removed and EXPR is substituted for every use of NAME (what the compiler does with a const).
+        Only constants whose initialiser is a literal / array of literals are handled; anything else is left in place."""
+        n = 0
+        for m in list(re.finditer(r"(?:^|\n)[ \t]*((?://[^\n]*\n[ \t]*)*)const ([A-Z][A-Z0-9_]*): ([^=]+?) = ((?:\[[^\[\];]*\])|(?:\"[^\"\n]*\")|(?:-?[0-9][0-9_a-z]*));", self.text)):
+            name, init = m.group(2), m.group(4)
+            before = self.text
+            self.text = self.text.replace(m.group(0), "\n", 1)
+            self.text = re.sub(r"\b%s\b" % re.escape(name), " ".join(init.split()), self.text)
+            if self.text != before:
+                n += 1
+        if n:
+            self.rewrites.append({"rule": "R9", "what": "%d function-local const(s) with a literal initialiser inlined at their uses" % n})
+        return self
+
     def desugar_option_closures(self):
         """R8, generic: Option combinators that take a closure are rewritten into the `match` their std definition is:
              r.map(|x| e)           -> (match r { Some(x) => Some(e), None => None })
